@@ -18,12 +18,12 @@
 EXTENDS Integers, Sequences, FiniteSets, TLC
 
 Answers(s) == s.kind # "silence" /\ s.at <= s.budget + 1
-ExpectOK(s) == s.kind = "ok" /\ Answers(s)
+ExpectOK(s) == s.kind \in {"ok", "vsaok"} /\ Answers(s)
 ErrClasses(s) ==
   CASE ~Answers(s) /\ s.kind # "eof" -> {"timeout"}
     [] s.kind = "fail"                -> {"failed"}
     [] s.kind \in {"noresult", "nooh"} -> {"malformed"}
-    [] s.kind \in {"noapps", "unsupapps"} -> {"malformed", "noapp", "failed"}
+    [] s.kind \in {"noapps", "unsupapps", "vsaunsup"} -> {"malformed", "noapp", "failed"}
     [] s.kind = "eof"                 -> {"transport", "timeout"}
     [] OTHER -> {}
 
@@ -35,6 +35,7 @@ Reasons(s, o, want) ==
   \o (IF ~o.identical THEN <<"cer-differs">> ELSE <<>>)
   \o (IF o.ncer > 1 /\ o.mingap < s.interval THEN <<"spacing">> ELSE <<>>)
   \o (IF o.cer # want THEN <<"cer-content">> ELSE <<>>)
+  \o (IF s.shared /\ ~o.other_open THEN <<"other-connection-closed">> ELSE <<>>)
   \o (IF ExpectOK(s)
       THEN (IF ~o.dial_ok THEN <<"dial-failed">> ELSE
               (IF o.closed_end THEN <<"closed-after-success">> ELSE <<>>)
